@@ -735,7 +735,7 @@ pub fn nondividing() {
     }
     w.slice()[0] = s2;
     w.produce(1, &[]);
-    acc::consume(&b, 1);
+    // the read window now starts at index 1 and reaches index 2, the alias of index 0
     let (r, t) = match b.clone().read_buf() {
         Ok(x) => x,
         Err(e) => {
@@ -744,7 +744,7 @@ pub fn nondividing() {
         }
     };
     std::mem::forget(t);
-    let ok = r.len() == 1 && r.slice()[0].exact_eq(&s2);
+    let ok = r.len() == 2 && r.slice()[0].exact_eq(&s1) && r.slice()[1].exact_eq(&s2);
     if !ok {
         witness!("RETURNED: a stream with a non-dividing element size was accepted and delivered corrupted data");
     }
